@@ -27,6 +27,16 @@ REQUIRED_COUNTERS = ["op." + o for o in OPS] + [
     "check.midpoint.affine", "kind.sparse", "kind.multi-occurrence"]
 
 
+def classify_crash(wit, errtxt, rc):
+    try:
+        import re
+        if any(re.search(r"= sparse\(.*\) [-+] ", l) for l in wit["desc"]["script"]):
+            return "rsub:sparse-constant-minus-function-crashes-interpreter"
+    except Exception:
+        pass
+    return "crash"
+
+
 def plan(tier):
     if tier == "thorough":
         return [{"variant": "plain", "workers": 16, "cases": 6000}]
@@ -109,14 +119,31 @@ def run(ctx):
             return "%s:value-mismatch" % op
         return "%s:%s" % (op, symptom)
 
-    def one(c):
-        rng = c.rng
+    def gen(rng):
         vars_ = S.gen_vars(rng)
         g = S.TreeGen(rng, vars_, exotic=True)
         invalid = rng.random() < 0.22
         t = g.invalid() if invalid else g.tree("any")
-        name, lines = S.script(t)
+        return vars_, t, S.script(t)[1]
+
+    def one(c):
+        rng = c.rng
+        vars_, t, lines = gen(rng)          # same stream as the pre-generation in the case loop
         c.desc["script"] = S.header(vars_) + lines
+        if S.risky(t):
+            # `sparse constant - function` can kill the interpreter on the unchanged tree
+            # (spmatrix.__sub__): such cases run in a forked child so that the worker survives
+            ctx.count("probe.forked")
+            sig = S.isolated(ctx, c, lambda: body(c, rng, vars_, t, lines))
+            if sig is not None:
+                c.check()
+                c.fail("rsub:sparse-constant-minus-function-crashes-interpreter",
+                       "evaluating the expression killed a forked interpreter with signal %d" % sig)
+                c.cls(t.op, "crash", t.L)
+        else:
+            body(c, rng, vars_, t, lines)
+
+    def body(c, rng, vars_, t, lines):
         rv = {v.idx: M.variable(v.n, v.name) for v in vars_}
         ident = {id(rv[v.idx]): v.idx for v in vars_}
         pre = {}
@@ -262,7 +289,14 @@ def run(ctx):
                     setvals(rv, vars_, vals)
                     rv[v.idx].value = None
                     ctx.count("check.none")
-                    isnone = r.value() is None
+                    try:
+                        isnone = r.value() is None
+                    except Exception as ex:
+                        c.check()
+                        c.fail("value:None-variable-raises-%s" % type(ex).__name__,
+                               "variable %s set to None: value() raised %s: %s instead of returning None"
+                               % (v.name, type(ex).__name__, ex))
+                        continue
                     c.require(isnone == (v.idx in listed), "%s:none-rule" % node.op,
                               "variable %s set to None, %s in variables(): value() is %s"
                               % (v.name, "listed" if v.idx in listed else "not listed", "None" if isnone else "not None"))
@@ -317,4 +351,9 @@ def run(ctx):
             ctx.sample({"script": lines[-6:], "bad": t.bad, "curv": t.curv, "L": t.L})
 
     for k in ctx.cases():
-        ctx.run_case(k, {}, one)
+        try:
+            v0, t0, l0 = gen(ctx.case_rng(k))
+            desc = {"script": S.header(v0) + l0}
+        except Exception:
+            desc = {}
+        ctx.run_case(k, desc, one)
